@@ -23,6 +23,5 @@ Next == \E r \in Alphabet : Cardinality(DOMAIN st) < 6 /\ st' = Effect(st, r) /\
 Spec == Init /\ [][Next]_<<st, last>>
 \* action property as invariant over (pre = S0-reachable, post): check every step
 StepOk == [][L1Step(st, st') /\ L2Step(st, st', last', L2Result(last'))]_<<st, last>>
-Emit == last.op = "none" \/ PrintT(<<"CASE", ToString(last)>>)
-View == st
+ASSUME PrintT(<<"ALPHABET", Cardinality(Alphabet)>>)
 =============================================================================
